@@ -40,6 +40,14 @@ After every call
     function of its key).  Pool 3 turns a wrong typing into a wrong RESULT: key values equal in one value space and
     distinct in the other, typed document first / untyped first, through substitution / wildcard / direct.
 
+  * after every call (used object and fresh object) every attribute a call has ADDED to a component must be a memo
+    attribute of the table scanned from the source of the tree under check (cached_property / schema_cached_property
+    functions, `if self.x is None: self.x = …` lazy fields: harness/lib_c18.scan_caches) and its value must be the one
+    every other schema object of the pool holds for that component and — for cached properties — the one recomputed
+    on a component no call has touched: a memo is a function of its KEY (`Inv.memo`, `memo_local_breaks_inv`).  An
+    attribute outside the table, a changed attribute the model does not account for, or a memo holding two values
+    is a FAILURE (`unexplained residue` / `not a function of its key`), not an accepted lazy attribute.
+
 A difference between shared and fresh results is a failing input unless it matches the listed finding C10-F3
 (`known_match`): the model of the code as it is predicts a differing observation for that call after that history
 AND the namespace lookups of both real runs are the ones the model describes.
@@ -293,10 +301,62 @@ D4_SCOPES = [('sub', 'member', 'memberS'), ('wild', 'g', 'gs'), ('dir', 'it', 'i
 D4 = [_k(sc, el, *c) for sc, el, _ in D4_SCOPES for c in _ANY_CASES] + \
      [_k(sc, els, *c) for sc, _, els in D4_SCOPES for c in _STR_CASES]
 
+
+# pools 4 / 5: value constraints (fixed / default) on elements and attributes whose instances are retyped (xsi:type to a
+# derived simple type with another Python value type; XSD 1.1 type alternatives) and written in lexical forms that
+# differ from the literal of the schema
+S5 = f'''<xs:schema xmlns:xs="{XS}">
+<xs:element name="root"><xs:complexType><xs:choice minOccurs="0" maxOccurs="unbounded">
+  <xs:element name="v" type="xs:decimal" fixed="1"/>
+  <xs:element name="s" type="xs:string" fixed="a b"/>
+  <xs:element name="a" type="xs:anySimpleType" fixed="true"/>
+  <xs:element name="d" type="xs:anySimpleType" fixed="2020-01-01Z"/>
+  <xs:element name="dv" type="xs:decimal" default="1"/>
+  <xs:element name="e" type="ET1"/>
+  <xs:element name="c" type="CT" fixed="1"/>
+</xs:choice></xs:complexType></xs:element>
+<xs:complexType name="ET1"><xs:attribute name="at" type="xs:decimal" fixed="1"/><xs:attribute name="df" type="xs:decimal" default="1"/></xs:complexType>
+<xs:complexType name="ET2"><xs:complexContent><xs:restriction base="ET1"><xs:attribute name="at" type="xs:integer" fixed="1"/>
+  </xs:restriction></xs:complexContent></xs:complexType>
+<xs:complexType name="CT"><xs:simpleContent><xs:extension base="xs:decimal"><xs:attribute name="u" type="xs:string"/></xs:extension></xs:simpleContent></xs:complexType>
+<xs:complexType name="CI"><xs:simpleContent><xs:restriction base="CT"><xs:simpleType><xs:restriction base="xs:integer"/></xs:simpleType>
+  </xs:restriction></xs:simpleContent></xs:complexType>
+</xs:schema>'''
+
+
+def _r5(body):
+    return f'<root xmlns:xsi="{XSI}" xmlns:xs="{XS}">{body}</root>'
+
+
+D5 = [_r5(b) for b in (
+    '<v>1.0</v>', '<v xsi:type="xs:integer">01</v>', '<v>2</v>', '<v xsi:type="xs:integer">2</v>', '<v>1</v>', '<v/>',
+    '<s>a b</s>', '<s xsi:type="xs:token"> a  b </s>', '<s> a b</s>', '<s xsi:type="xs:token">a c</s>',
+    '<a>true</a>', '<a xsi:type="xs:boolean">1</a>', '<a>1</a>', '<a xsi:type="xs:boolean">0</a>',
+    '<d xsi:type="xs:date">2020-01-01+00:00</d>', '<d>2020-01-01+00:00</d>', '<d>2020-01-01Z</d>',
+    '<dv/>', '<dv xsi:type="xs:integer"/>', '<dv>1.0</dv>',
+    '<e at="1.0"/>', '<e xsi:type="ET2" at="01"/>', '<e at="2"/>', '<e xsi:type="ET2" at="1.0"/>', '<e df="1.00"/>',
+    '<c>1.0</c>', '<c xsi:type="CI">01</c>', '<c xsi:type="CI">1.0</c>', '<c u="x">2</c>',
+    '<v xsi:type="xs:integer">01</v><v>1.0</v>', '<v>1.0</v><v xsi:type="xs:integer">01</v>',
+)]
+
+S6 = f'''<xs:schema xmlns:xs="{XS}">
+<xs:element name="root"><xs:complexType><xs:sequence>
+  <xs:element name="w" minOccurs="0" maxOccurs="unbounded" type="WT" fixed="1">
+     <xs:alternative test="@k='i'" type="WI"/></xs:element>
+</xs:sequence></xs:complexType></xs:element>
+<xs:complexType name="WT"><xs:simpleContent><xs:extension base="xs:decimal"><xs:attribute name="k" type="xs:string"/></xs:extension></xs:simpleContent></xs:complexType>
+<xs:complexType name="WI"><xs:simpleContent><xs:restriction base="WT"><xs:simpleType><xs:restriction base="xs:integer"/></xs:simpleType>
+  </xs:restriction></xs:simpleContent></xs:complexType>
+</xs:schema>'''
+D6 = ['<root><w>1.0</w></root>', '<root><w k="i">01</w></root>', '<root><w k="i">1.0</w></root>', '<root><w>2</w></root>',
+      '<root><w k="i">01</w><w>1.0</w></root>', '<root><w>1.0</w><w k="i">01</w></root>', '<root><w>1</w></root>']
+
 POOLS = [('xsi+identity+wildcard+substitution+fixed+ID (1.0)', '1.0', S1, D1),
          ('assert+fixed+wildcard+keyref+xsi (1.1)', '1.1', S2, D2),
          ('wildcards lax/strict/skip x namespaces loaded on demand / at build / never (1.0)', '1.0', S3, D3),
-         ('key fields: declared type vs xsi:type value spaces x substitution / wildcard / direct (1.0)', '1.0', S4, D4)]
+         ('key fields: declared type vs xsi:type value spaces x substitution / wildcard / direct (1.0)', '1.0', S4, D4),
+         ('fixed / default values x xsi:type retyping x non-canonical lexical forms (1.0)', '1.0', S5, D5),
+         ('fixed value x XSD 1.1 type alternatives (1.1)', '1.1', S6, D6)]
 OPS = ['is_valid', 'iter_errors', 'validate', 'decode', 'decode_strict', 'to_objects', 'encode', 'stop', 'lazy',
        'kbint', 'exv', 'abandon']
 ABORT_OPS = ('stop', 'kbint', 'exv', 'abandon', 'tabort')
@@ -608,6 +668,13 @@ class Pool:
         self.widen: dict = {}
         self.complex: set = set()
         self.dummies: dict = {}
+        self.scan_ctx: Optional[Ctx] = None
+        self.pi = [p[0] for p in POOLS].index(name) if name in [p[0] for p in POOLS] else 0
+        self.baseline_attrs: list = [set(getattr(c, '__dict__', {}) or {}) for c in self.ref.iter_components()]
+        self.memo_registry: dict = {}
+        self.memo_ref = make_schema(version, xsd)       # untouched components, to recompute memo attributes on
+        self.memo_ref_comps = list(self.memo_ref.iter_components())
+        self.memo_ref_idx = self.index(self.memo_ref)
         self.ns_names: list = sorted(self.clean.maps.namespaces)
         self.ns_base = set(self.clean.maps.namespaces)
         self.fresh_info: dict = {}
@@ -804,6 +871,9 @@ class Pool:
             self.fresh_cache[key] = perform(schema, op, xml if xml is not None else self.docs[di], stop_at, probe, src)
             _steps, real, attr_ok = self.steps_of(schema, fidx, probe, op in ('lazy', 'abandon'))
             self.fresh_info[key] = (real, attr_ok, self.last_attr, _steps)
+            if self.scan_ctx is not None:
+                memo_scan(self.scan_ctx, self, schema, self.index(schema),
+                          {'pool': self.pi, 'history': [[op, di, stop_at]]}, 'fresh run')
         self.last_fresh_key = key
         return self.fresh_cache[key]
 
@@ -952,6 +1022,102 @@ def load_findings(ctx: Ctx) -> None:
 
 
 # ------------------------------------------------------------------------------------------------
+# memo attributes: the table regenerated from the source, and the check that a memo is a function of its key
+# ------------------------------------------------------------------------------------------------
+_MEMO_TABLE: set = set()
+
+
+def memo_table() -> set:
+    """names of the attributes the library fills lazily: functions decorated with cached_property /
+    schema_cached_property and hand-written lazy fields (`if self.x is None: self.x = …`), scanned from the source of
+    the tree under check (harness/lib_c18.scan_caches)"""
+    if not _MEMO_TABLE:
+        from harness import lib_c18
+        for _f, _cls, fn, kind in lib_c18.scan_caches():
+            if kind in ('cached_property', 'schema_cached_property'):
+                _MEMO_TABLE.add(fn)
+            elif kind.startswith('lazyfield:'):
+                _MEMO_TABLE.add(kind.split(':', 1)[1])
+    return _MEMO_TABLE
+
+
+def canon_value(v: Any, idx: dict, depth: int = 0) -> Any:
+    """a value of a memo attribute in a form comparable ACROSS schema objects"""
+    if isinstance(v, (str, int, bool, type(None))):
+        return [type(v).__name__, v]
+    if isinstance(v, (bytes, float, complex)):
+        return [type(v).__name__, repr(v)]
+    if depth > 4:
+        return ['…']
+    if isinstance(v, (list, tuple)):
+        return [type(v).__name__] + [canon_value(x, idx, depth + 1) for x in v]
+    if isinstance(v, (set, frozenset)):
+        return [type(v).__name__] + sorted((canon_value(x, idx, depth + 1) for x in v), key=repr)
+    if isinstance(v, dict):
+        return [type(v).__name__] + [[canon_value(k, idx, depth + 1), canon_value(x, idx, depth + 1)] for k, x in v.items()]
+    if id(v) in idx:
+        return ['component', idx[id(v)]]
+    mod = getattr(type(v), '__module__', '') or ''
+    if mod in ('decimal', 'datetime', 'fractions') or mod.startswith('elementpath.datatypes'):
+        return ['value', type(v).__name__, ADDR.sub('', repr(v))]
+    name = getattr(v, 'name', None)
+    return ['object', type(v).__name__, name if isinstance(name, str) else None]
+
+
+def memo_scan(ctx: Ctx, pool: 'Pool', schema, idx: dict, case: Any, where: str) -> None:
+    """every attribute that a call has ADDED to a component of the schema must be a memo attribute of the table,
+    and its value must be the one every other schema object of the pool has (or computes) for the same component:
+    a memo is a function of its key"""
+    table = memo_table()
+    for i, c in enumerate(schema.iter_components()):
+        d = getattr(c, '__dict__', None)
+        if not d or i >= len(pool.baseline_attrs):
+            continue
+        for a in d:
+            if a in pool.baseline_attrs[i]:
+                continue
+            if a not in table:
+                ctx.failure('unexplained residue: a call left the attribute %r on a %s of the schema, which is neither modelled '
+                            'residue nor a memo attribute of the library (cached_property / lazy field table scanned from the '
+                            'source)' % (a, type(c).__name__), case, {'where': where, 'component': i, 'attribute': a,
+                                                                      'value': ADDR.sub('', repr(d[a]))[:200]})
+                pool.baseline_attrs[i].add(a)
+                continue
+            cv = canon_value(d[a], idx)
+            key = (i, a)
+            if key not in pool.memo_registry:
+                pool.memo_registry[key] = (cv, where, case)
+                # recompute on a component that no call has touched
+                rc = pool.memo_ref_comps[i] if i < len(pool.memo_ref_comps) else None
+                if rc is not None and isinstance(getattr(type(rc), a, None), (property,)) is False and \
+                        hasattr(type(rc), a) and not isinstance(getattr(type(rc), a), (int, str, type(None))):
+                    try:
+                        rv = canon_value(getattr(rc, a), pool.memo_ref_idx)
+                    except Exception:
+                        rv = None
+                    if rv is not None:
+                        ctx.traces += 1
+                        ctx.count('memo attributes recomputed on an untouched component')
+                        if rv != cv:
+                            ctx.failure('memo attribute %r of component %d (%s): the value a call left differs from the value '
+                                        'computed on a component that no call has touched — the memo is not a function of its '
+                                        'key' % (a, i, type(c).__name__), case, {'where': where, 'left_by_call': cv, 'recomputed': rv})
+            elif pool.memo_registry[key][0] != cv:
+                first = pool.memo_registry[key]
+                both = dict(case)
+                if isinstance(first[2], dict) and isinstance(case, dict) and first[2].get('pool') == case.get('pool') \
+                        and 'docs' not in first[2] and 'docs' not in case:
+                    both = {'pool': case['pool'], 'history': list(first[2]['history']) + list(case['history'])}
+                ctx.failure('memo attribute %r of component %d (%s) holds different values in two schema objects of the same '
+                            'schema: whichever call fills it first decides — the memo is not a function of its key'
+                            % (a, i, type(c).__name__), both,
+                            {'where': where, 'value_here': cv, 'value_elsewhere': first[0], 'elsewhere': first[1],
+                             'this_case': case, 'elsewhere_case': first[2]})
+                pool.memo_registry[key] = (cv, where, case)
+            ctx.count('memo attributes checked')
+
+
+# ------------------------------------------------------------------------------------------------
 # fingerprint classification (what else is residue?)
 # ------------------------------------------------------------------------------------------------
 B_ATTRS = ('.xsi_types', '.selected_by')
@@ -960,7 +1126,7 @@ XPATH_NODE_CLASSES = ('XPathNodeTree', 'SchemaElementNode', 'SchemaAttributeNode
 IDENT_CLASSES = ('XsdUnique', 'XsdKey', 'XsdKeyref', 'Xsd11Unique', 'Xsd11Key', 'Xsd11Keyref')
 
 
-def classify_diff(d: dict) -> tuple[dict, list]:
+def classify_diff(d: dict, prev_owners: Optional[set] = None) -> tuple[dict, list]:
     """returns (counts by accounted kind, unexplained [(key, before, after)])"""
     kinds: dict = {}
     bad = []
@@ -968,6 +1134,11 @@ def classify_diff(d: dict) -> tuple[dict, list]:
         attr = k.split(':', 1)[1]
         cls, _, name = attr.partition('.')
         if a in (['<absent>'], ['<unset>']):
+            owner = k.split(':', 1)[0]
+            if prev_owners is not None and owner in prev_owners and a == ['<absent>'] and name not in memo_table() \
+                    and name != '<items>':
+                bad.append((k, a, b))          # a new attribute on an object that existed: not a memo of the table
+                continue
             kind = 'lazy attribute / new object (write-once)'
         elif attr.endswith(B_ATTRS) or (cls in IDENT_CLASSES and name == 'elements'):
             kind = 'xsi_types / selected_by / identity.elements'
@@ -1040,6 +1211,9 @@ def _run_history(ctx: Ctx, pi: int, pool: Pool, hist: list, drv: Optional[Driver
     uses_xsi = any('xsi:type' in docs[di] for _, di, _ in hist)
     bad_before_good = False
     seen_bad = False
+    _p0 = Probe('iter_errors', 0)
+    _p0.attach(shared, None)            # the loader wrapper of the probes is in place before the first fingerprint
+    _p0.detach()
     namer = lib_c10.Namer() if deep else None
     fp = lib_c10.fingerprint(shared, namer) if deep else None
     lazy_keys: dict = {}
@@ -1081,6 +1255,8 @@ def _run_history(ctx: Ctx, pi: int, pool: Pool, hist: list, drv: Optional[Driver
                 ctx.count('abort-inside-xsi-block:budget=%d' % budget)
         obs = pool.observe(shared, idx)
         obs['loaded'] = loaded
+        pool.scan_ctx = ctx
+        memo_scan(ctx, pool, shared, idx, case, 'call %d (%s) of the history' % (step_no, op))
         differs = got != want
         if differs:
             ctx.count('differs-from-fresh')
@@ -1101,15 +1277,16 @@ def _run_history(ctx: Ctx, pi: int, pool: Pool, hist: list, drv: Optional[Driver
         if deep:
             fp2 = lib_c10.fingerprint(shared, namer)
             dd = lib_c10.diff(fp, fp2)
-            kinds, bad = classify_diff(dd)
+            kinds, bad = classify_diff(dd, {k.split(':', 1)[0] for k in fp})
             for k, n in kinds.items():
                 ctx.count('residue:' + k, n)
             ctx.count('fingerprints')
             for k, a, b in bad[:3]:
-                ctx.mismatch('unexplained residue: attribute %s of the schema object graph changed during call %d (%s)'
-                             % (k.split(':', 1)[1], step_no, op), case, {'before': str(a)[:300], 'after': str(b)[:300]},
-                             'the model accounts for xsi_types / selected_by / identity.elements, cache growth, write-once '
-                             'lazy attributes and the clearable fields of the scratch context only')
+                ctx.failure('unexplained residue: attribute %s of the schema object graph changed during call %d (%s); the '
+                            'modelled residue is xsi_types / selected_by / identity.elements, lru cache growth, the memo '
+                            'attributes of the table scanned from the source (written once), the clearable fields of the '
+                            'scratch context and the schema XPath node registry' % (k.split(':', 1)[1], step_no, op), case,
+                            {'before': str(a)[:300], 'after': str(b)[:300]})
             for k, (a, b) in dd.items():
                 if a in (['<absent>'], ['<unset>']) and b != ['<unset>'] and k not in lazy_keys:
                     lazy_keys[k] = len(lazy_keys)
@@ -1288,6 +1465,15 @@ def run(ctx: Ctx, driver_ok: bool) -> None:
                     continue
                 run_history(ctx, 3, p3, [[ops3[(d1 + d2 + ctx.seed) % 4], d1, 2], ['iter_errors', d2, 1]], drv, 'typing-pairs',
                             deep=(d1 + d2) % 9 == 0)
+    # value constraints: every ordered pair of documents of pools 4 and 5 (retyped first / declared type first)
+    for pi in (4, 5):
+        nd = len(pools[pi].docs)
+        for d1 in range(nd):
+            for d2 in range(nd):
+                if ctx.quick() and pi == 4 and (d1 * 3 + d2 + ctx.seed) % 3:
+                    continue
+                run_history(ctx, pi, pools[pi], [[ops3[(d1 + d2 + ctx.seed) % 4], d1, 2], ['iter_errors', d2, 1]], drv,
+                            'value-pairs', deep=(d1 + d2) % 7 == 0)
     # calls aborted between two statements of the xsi:type block (KeyboardInterrupt from a trace function)
     for pi, di, follow in ((0, 0, 2), (0, 6, 0), (0, 17, 6), (0, 16, 2), (1, 6, 4)):
         for nth in range(1, ctx.pick(5, 9)):
@@ -1315,6 +1501,8 @@ def run(ctx: Ctx, driver_ok: bool) -> None:
         if ctx.time_left() < 120:
             ctx.notes.append(f'random histories cut at {i} by the time budget')
             break
+    # the replay file shows the first failure: prefer a differing RESULT over a differing residue
+    ctx.failures.sort(key=lambda f: 0 if 'different result' in f['what'] else 1)
     ctx.extra['algorithm_under_check'] = 'the code as it is (widening once per (type, constraint) pair, collection gated by selected_by)'
     ctx.extra['explanation'] = ('witness histories of the listed findings; calls aborted inside the xsi:type block; ordered pairs of '
                                 'pool documents (first call %s, then iter_errors and decode of the second%s) + %d seeded histories '
